@@ -1226,6 +1226,20 @@ func (r *Resolver) answer(ctx context.Context, req, resp *dns.Msg, parentDS []dn
 	return resp, nil
 }
 
+// recordsInZoneAndOPT returns the records of an additional section that are
+// owned inside zone, and its OPT records (owned by the root whatever the
+// zone).
+func recordsInZoneAndOPT(extra []dns.RR, zone string) []dns.RR {
+	z := dns.CanonicalName(zone)
+	out := make([]dns.RR, 0, len(extra))
+	for _, rr := range extra {
+		if rr.Header().Rrtype == dns.TypeOPT || dnsutil.NameInZone(dns.CanonicalName(rr.Header().Name), z) {
+			out = append(out, rr)
+		}
+	}
+	return out
+}
+
 func (r *Resolver) authority(ctx context.Context, req, resp *dns.Msg, parentDS []dns.RR, zone string) (*dns.Msg, error) {
 	if req == nil || resp == nil || len(req.Question) != 1 ||
 		len(resp.Question) != 1 ||
@@ -1239,6 +1253,13 @@ func (r *Resolver) authority(ctx context.Context, req, resp *dns.Msg, parentDS [
 		// another.
 		return nil, ErrQuestion
 	}
+
+	// As in answer(): the servers that sent resp speak for zone and nothing
+	// else. A denial padded with records owned outside it would be relayed
+	// with them — and with AD set, although validation skips what lies
+	// outside the signer's zone. They go before anything reads the sections.
+	resp.Ns = dnsutil.FilterRRsToZone(resp.Ns, zone)
+	resp.Extra = recordsInZoneAndOPT(resp.Extra, zone)
 
 	if !req.CheckingDisabled {
 		if r.dnssec && !r.hasTrustAnchors() {
